@@ -2,6 +2,8 @@
 import time
 from . import common as C
 from . import handles as H
+from . import design as D
+import os
 
 ASSUME_HANDLES = [
     "TLC and the CommunityModules JSON reader are correct",
@@ -14,17 +16,47 @@ ASSUME_HANDLES = [
 EMPH = {"C01": "mixed", "C02": "mixed", "C03": "mixed", "C04": "mut", "C07": "safe", "C08": "mixed", "C13": "contract"}
 
 
+# design-model configuration per property: (ops, depth, handles, allocs, maxlen)
+def design_cfg(prop, tier):
+    if prop == "C04":
+        return (D.MUT_OPS, 5 if tier == "quick" else 6, 3, 6, 3)
+    return (D.ALL_OPS, 4 if tier == "quick" else 5, 3, 6, 3)
+
+
 def handle_check(prop, tier, seed):
     t0 = time.time()
     emph = EMPH.get(prop, "mixed")
     nprog = 250 if tier == "quick" else 3000
     steps = 40 if tier == "quick" else 60
     results = []
+    # 1. exhaustive TLC check of the design model against the laws + program generation (G)
+    ops, depth, handles, allocs, maxlen = design_cfg(prop, tier)
+    mc = D.run_model("%s_mc" % prop, depth, handles, allocs, maxlen, ops, sample_k=300 if tier == "quick" else 60, seed=seed,
+                     timeout=900 if tier == "quick" else 3000)
+    if mc["actions_never_taken"]:
+        raise C.ToolError("vacuity: design actions never taken: %s" % mc["actions_never_taken"])
+    pf = os.path.join(C.workdir("design"), "%s_programs.ndjson" % prop)
+    preds = D.write_programs(mc["programs"], pf, limit=2500 if tier == "quick" else 40000, seed=seed)
+    drift_total, compared_total, drift_notes = 0, 0, []
+    # 2. replay the generated programs on the real code (G), judge by the laws (V), compare with the design (D)
+    for profile in ("debug", "release"):
+        r = H.run_config("%s_%s_gen" % (prop, profile), profile, ["--programs", pf])
+        compared, drift, notes = D.conformance(r["trace"], preds)
+        compared_total += compared
+        drift_total += drift
+        drift_notes += notes[:2]
+        results.append(r)
+    if drift_total:
+        print("DRIFT property=%s: the code deviates from the design model BytesImpl.tla in %d of %d replayed steps "
+              "(not a verdict; the laws still judge every step). First: %s" % (prop, drift_total, compared_total, drift_notes[:1]))
+    mcinfo = {k: mc[k] for k in ("distinct", "generated", "depth", "constants", "action_coverage")}
+    mcinfo.update({"programs_emitted": len(mc["programs"]), "programs_replayed": len(preds), "conformance_steps": compared_total,
+                   "conformance_drift": drift_total, "model_drift": drift_total > 0, "drift_samples": drift_notes[:3]})
     for profile in ("debug", "release"):
         ga = ["--random", "--seed", str(seed * 1000 + (1 if profile == "debug" else 2)), "--nprog", str(nprog), "--steps", str(steps),
               "--maxh", "6" if tier == "quick" else "8", "--maxlen", "12", "--profile", emph]
         results.append(H.run_config("%s_%s_rand" % (prop, profile), profile, ga))
-    return H.report(prop, results, tier, seed, t0, assumptions=ASSUME_HANDLES)
+    return H.report(prop, results, tier, seed, t0, assumptions=ASSUME_HANDLES, mc=mcinfo)
 
 
 def run(prop, tier, seed):
